@@ -501,8 +501,53 @@ def is_ancestor(a, b):
     return a.root == b.root and cb[:len(ca)] == ca
 
 
-LAW_CLASSES = {'parent-is-bare-drive': ('parent_append', 'splitleaf'),
-               'basename-drive-like': ('parent_append', 'splitleaf')}
+DRIVE_ERR = 'relative paths with drives not supported'
+
+
+def _sig_drive_err(p, detail, got):
+    return detail == 'raised ValueError: ' + DRIVE_ERR
+
+
+def _sig_reparsed(p, detail, got):
+    # the text of the suffix is read again as a drive-prefixed ABSOLUTE path
+    return _sig_drive_err(p, detail, got) or (got is not None and got.root.name == 'absolute' and
+                                              got.suffix in (p.suffix, p.suffix + '/'))
+
+
+def _sig_abs_suffix(p, detail, got):
+    # the accepted relative path has the shape drive + absolute rest (./C:/x is kept as C:/x under its relative root)
+    return detail.startswith('relative root with absolute suffix')
+
+
+def _sig_dslash_kept(p, detail, got):
+    return 'keeps a double slash after the drive' in detail
+
+
+def _sig_dslash_single(p, detail, got):
+    drive, rest = ntpath.splitdrive(p.suffix)
+    return got is not None and got.root == p.root and got.suffix == drive + '/' + rest.lstrip('/')
+
+
+# A finding explains only the laws it is about, and only the failure it describes (findings.d/C12.json): class -> {law:
+# signature(path, detail text, the value the law got or None)}. Any other failure on a path of the same shape is a
+# violation of its own.
+LAW_CLASSES = {
+    # parent() raises: dirname() yields the bare drive
+    'parent-is-bare-drive': {'parent_append': _sig_drive_err, 'splitleaf': _sig_drive_err},
+    # parent().append(basename()) raises: the basename is read as a drive-relative path
+    'basename-drive-like': {'parent_append': _sig_drive_err},
+    # every operation that rebuilds the path from its suffix raises (or reads the suffix as an absolute path)
+    'relative-suffix-drive-like': {'idempotent': _sig_reparsed, 'json_rt': _sig_reparsed, 'stripext_addext': _sig_reparsed,
+                                   'parent_append': _sig_reparsed, 'normalised': _sig_abs_suffix},
+    # the doubled separator survives; parent().append(basename()) gives the single-slash spelling
+    'double-slash-after-drive': {'normalised': _sig_dslash_kept, 'parent_append': _sig_dslash_single},
+}
+
+
+def law_classes(p, law, detail, got=None, extra=()):
+    """classes of a path-law failure: the classes given for this very call site (extra) and the path's classes that are
+    about this law and whose signature the failure has"""
+    return tuple(c for c in classes_of(p) if law in LAW_CLASSES.get(c, {}) and LAW_CLASSES[c][law](p, detail, got)) + tuple(extra)
 
 
 def classes_of(p=None, paths=(), extra=()):
@@ -547,13 +592,13 @@ def check_path_laws(rep, cls, roots, s, ri, dd, dr, p, stats):
     root = roots[ri]
     info = {'cls': cls.__name__, 's': s, 'root': ri, 'destdir': dd, 'directory': dr}
 
-    def fail(law, detail, extra=()):
+    def fail(law, detail, extra=(), got=None):
         nonlocal bad
         bad += 1
         stats['fail:' + law] = stats.get('fail:' + law, 0) + 1
         # a finding explains only the laws it is about: parent() of a path directly below a drive (and re-appending a
         # drive-like basename) concern the parent/append laws, not e.g. the JSON round trip of the same path
-        cl = tuple(c for c in classes_of(p, extra=extra) if law in LAW_CLASSES.get(c, (law,)))
+        cl = law_classes(p, law, detail, got, extra)
         rep.fail('%s law broken by %s(%r, %s): %s' % (law, cls.__name__, s, root.name, detail),
                  dict(info, law=law, detail=detail), classes=cl)
 
@@ -577,7 +622,7 @@ def check_path_laws(rep, cls, roots, s, ri, dd, dr, p, stats):
         fail('normalised', 'relative root with absolute suffix %r' % p.suffix)
     q = attempt('idempotent', lambda: cls(p.suffix, p.root, p.destdir, p.directory))
     if q is not None and not same(q, p, True):
-        fail('idempotent', 'rebuilt as %r' % (q.suffix,))
+        fail('idempotent', 'rebuilt as %r' % (q.suffix,), got=q)
     # L3 separator symmetry
     try:
         q = cls(swap(s), root, dd, dr)
@@ -617,7 +662,7 @@ def check_path_laws(rep, cls, roots, s, ri, dd, dr, p, stats):
                 want0 = posixpath.join('/', p.suffix) if p.suffix else '/'
                 if real0 != want0:
                     fail('realize_join', 'string() against the base directory / gives %r, ordinary joining %r' % (real0, want0),
-                         ('realize-base-ends-with-separator',))
+                         ('realize-base-ends-with-separator',) if real0 == '/' + want0 else ())
         # executable form: ./ exactly for a bare name when the root has no value
         exe = p.realize({p.root: None}, executable=True, localize=False)
         want_exe = p.suffix if '/' in p.suffix else ('./' + p.suffix if p.suffix else '.')
@@ -629,7 +674,7 @@ def check_path_laws(rep, cls, roots, s, ri, dd, dr, p, stats):
         if par is not None:
             q = attempt('parent_append', lambda: par.append(p.basename()))
             if q is not None and not same(q, p):
-                fail('parent_append', 'parent().append(basename()) = %r' % (q.suffix,))
+                fail('parent_append', 'parent().append(basename()) = %r' % (q.suffix,), got=q)
             if not par.directory:
                 fail('parent_append', 'parent is not a directory')
             sl = p.splitleaf()
@@ -638,13 +683,13 @@ def check_path_laws(rep, cls, roots, s, ri, dd, dr, p, stats):
     # L6 json
     q = attempt('json_rt', lambda: cls.from_json(p.to_json()))
     if q is not None and not same(q, p, True):
-        fail('json_rt', 'from_json(to_json()) = %r dir=%r' % (q.suffix, q.directory))
+        fail('json_rt', 'from_json(to_json()) = %r dir=%r' % (q.suffix, q.directory), got=q)
     # L9 stripext / addext
     st = attempt('stripext_addext', p.stripext)
     if st is not None:
         q = attempt('stripext_addext', lambda: st.addext(p.ext()))
         if q is not None and not same(q, p, True):
-            fail('stripext_addext', 'stripext().addext(ext()) = %r' % (q.suffix,))
+            fail('stripext_addext', 'stripext().addext(ext()) = %r' % (q.suffix,), got=q)
         if p.ext() and '/' in p.ext():
             fail('stripext_addext', 'ext %r contains a separator' % p.ext())
     return bad
@@ -688,7 +733,11 @@ def stage_oracle_paths(rep, rng, n, strings=()):
                     cls.__name__, s, roots[ri].name, dd, dr, 'rejected' if p is None else 'accepted',
                     'reject' if expect_reject else 'accept'),
                     {'cls': cls.__name__, 's': s, 'root': ri, 'destdir': dd, 'directory': dr, 'law': 'confined'},
-                    classes=classes_of(p))
+                    # relative-suffix-drive-like: a drive-relative spelling is ACCEPTED (as a relative path with a drive-like
+                    # first component); nothing else about acceptance is a recorded finding
+                    classes=('relative-suffix-drive-like',) if (
+                        p is not None and reldrive and 'relative-suffix-drive-like' in classes_of(p) and
+                        not ((dd and ri < 3 and ri != 2) or (dr is False and isdir) or walk_escapes(0, s))) else ())
             if p is not None:
                 bad += check_path_laws(rep, cls, roots, s, ri, dd, dr, p, stats)
     rep.stage('oracle:path-laws', cases=len(cases) * 2, failures=bad, **stats)
@@ -726,13 +775,26 @@ def stage_oracle_pairs(rep, rng, n):
             bdrive, brest = ntpath.splitdrive(base.suffix)
             joined = posixpath.normpath(posixpath.join(base.suffix, s.replace('\\', '/')))
             jcls = ('relative-suffix-drive-like',) if (base.root.name != 'absolute' and re.match(r'^[^/]:', joined)) else ()
-            depth = len([c for c in brest.split('/') if c])
-            results = {}
+            # components below the root: a drive prefix is not one of them - but only an ABSOLUTE path has a drive (the first
+            # component 'a:' of a relative base is an ordinary directory name for the walk)
+            depth = len([c for c in (brest if base.root.name == 'absolute' else base.suffix).split('/') if c])
+            results, errors = {}, {}
             for how, f in (('ctor', lambda: cls(s, base)), ('append', lambda: base.append(s))):
                 try:
                     results[how] = f()
-                except ValueError:
+                except ValueError as e:
                     results[how] = None
+                    errors[how] = str(e)
+            # relative-suffix-drive-like in this stage: the base (or the joined text) is a relative path with a drive-like
+            # first component; rebuilding it raises the drive error or reads the joined text as an absolute path
+            rsdl = bool(jcls) or 'relative-suffix-drive-like' in classes_of(base)
+
+            def rsdl_classes(q, how):
+                if not rsdl:
+                    return ()
+                if q is None:
+                    return ('relative-suffix-drive-like',) if errors.get(how) == DRIVE_ERR else ()
+                return ('relative-suffix-drive-like',) if (q.root.name == 'absolute' and q.suffix == joined) else ()
             for how, q in results.items():
                 if isabs or reldrive:
                     continue
@@ -742,26 +804,29 @@ def stage_oracle_pairs(rep, rng, n):
                         bad += 1
                         rep.fail('nested root (%s): %s %r + %r gives the non-absolute suffix %r under the absolute root' % (
                             how, cls.__name__, bs, s, q.suffix), dict(info, how=how),
-                            classes=('dotdot-above-drive',) if bdrive else classes_of(base))
+                            # the finding: the drive is treated as ordinary components, so walking up to the drive root or
+                            # above it gives exactly the joined text, normalised as a plain POSIX path (the bare drive, a part
+                            # of it, nothing, or what follows after the walk came down again)
+                            classes=('dotdot-above-drive',) if (bdrive and q.suffix == ('' if joined == '.' else joined)) else ())
                     continue
                 esc = walk_escapes(depth, s)
                 if (q is None) != esc:
                     bad += 1
                     rep.fail('nested root (%s): %s base %r + %r %s but the walk oracle says %s' % (
                         how, cls.__name__, bs, s, 'rejected' if q is None else 'accepted', 'reject' if esc else 'accept'),
-                        dict(info, how=how), classes=classes_of(base, extra=jcls))
+                        dict(info, how=how), classes=rsdl_classes(q, how))
                 if q is not None:
                     want = posixpath.normpath(posixpath.join('/R', base.suffix, s.replace('\\', '/')))
                     got = q.string({q.root: '/R'}).replace('\\', '/')
                     if got != want:
                         bad += 1
                         rep.fail('nested root (%s): %r + %r realises to %r, ordinary joining gives %r' % (how, bs, s, got, want),
-                                 dict(info, how=how), classes=classes_of(base, extra=jcls))
+                                 dict(info, how=how), classes=rsdl_classes(q, how))
             a, b = results['ctor'], results['append']
             if a is not None and b is not None and not isabs and not same(a, b):
                 bad += 1
                 rep.fail('Path(s, base) %r differs from base.append(s) %r' % (a.suffix, b.suffix), info,
-                         classes=classes_of(base, extra=jcls))
+                         classes=tuple(sorted(set(rsdl_classes(a, 'ctor') + rsdl_classes(b, 'append')))))
             # relpath / append round trip between two paths under one non-absolute root
             if base.root.name != 'absolute':
                 try:
@@ -770,20 +835,30 @@ def stage_oracle_pairs(rep, rng, n):
                     other = None
                 if other is not None and other.root == base.root:
                     for x, y in ((base, other), (other, base)):
+                        back = errtext = None
                         try:
                             rel = x.relpath(y)
                             back = y.append(rel)
                             ok = same(back, x)
                             det = 'relpath=%r, append gives %r' % (rel, back.suffix)
                         except ValueError as e:
-                            ok, det = False, 'raised ValueError: %s' % e
+                            ok, det, errtext = False, 'raised ValueError: %s' % e, str(e)
                         if not ok:
                             bad += 1
-                            rcls = ('relpath-drive-like',) if re.match(
-                                r'^[^/]:', posixpath.relpath('/' + x.suffix, '/' + y.suffix)) else ()
+                            # the two findings about this law: the relative path from y to x starts with a drive-like
+                            # component (append reads it as a drive: the drive error, or an absolute path with that text);
+                            # x or y is itself a relative path with a drive-like first component (the drive error)
+                            relxy = posixpath.relpath('/' + x.suffix, '/' + y.suffix)
+                            rcls = []
+                            if re.match(r'^[^/]:', relxy) and (errtext == DRIVE_ERR or (
+                                    back is not None and back.root.name == 'absolute' and back.suffix == relxy)):
+                                rcls.append('relpath-drive-like')
+                            if 'relative-suffix-drive-like' in classes_of(paths=(x, y)) and (errtext == DRIVE_ERR or (
+                                    back is not None and back.root.name == 'absolute' and back.suffix == x.suffix)):
+                                rcls.append('relative-suffix-drive-like')      # ... or x's own text read as an absolute path
                             rep.fail('relpath/append: %s x=%r y=%r under %s: %s' % (
                                 cls.__name__, x.suffix, y.suffix, roots[ri].name, det), info,
-                                classes=classes_of(paths=(x, y), extra=rcls))
+                                classes=tuple(rcls))
                         pre = x.relpath(y, prefix='$ORIGIN', localize=False)
                         if not (pre == '$ORIGIN' or pre.startswith('$ORIGIN/')):
                             bad += 1
@@ -810,8 +885,8 @@ def stage_oracle_sets(rep, rng, n):
                 first = set((rel_comps_of(p) or [None])[0] for p in ps)
                 if len(first) > 1 or None in first:
                     extra.append('commonprefix-absolute-root-only')
-            if sameroot and all(p.suffix == '' for p in ps):
-                extra.append('commonprefix-all-root-dir')
+            if sameroot and all(not rel_comps_of(p) for p in ps):
+                extra.append('commonprefix-all-root-dir')      # all are the root directory itself ('' or, absolute, '/')
             try:
                 cp = bpath.commonprefix(ps)
                 err = None
@@ -819,8 +894,18 @@ def stage_oracle_sets(rep, rng, n):
                 cp, err = None, e
             if err is not None or (cp is None) != (not sameroot):
                 bad += 1
+                # the three findings about commonprefix describe a ValueError with a particular message each
+                msg = str(err) if isinstance(err, ValueError) else None
+                ccls = []
+                if 'commonprefix-absolute-root-only' in extra and (
+                        msg == "'' is not absolute" or (msg == DRIVE_ERR and any(ntpath.splitdrive(p.suffix)[0] for p in ps))):
+                    ccls.append('commonprefix-absolute-root-only')
+                if 'commonprefix-all-root-dir' in extra and msg == 'expected a non-directory path':
+                    ccls.append('commonprefix-all-root-dir')
+                if msg == DRIVE_ERR and 'relative-suffix-drive-like' in classes_of(paths=ps):
+                    ccls.append('relative-suffix-drive-like')
                 rep.fail('commonprefix(%r) %s' % ([p.suffix for p in ps], 'raised %r' % err if err else 'returned None'),
-                         info, classes=classes_of(paths=ps, extra=extra))
+                         info, classes=tuple(ccls))
             elif cp is not None:
                 comps = [rel_comps_of(p) for p in ps]
                 k = 0
@@ -829,7 +914,7 @@ def stage_oracle_sets(rep, rng, n):
                 if not all(is_ancestor(cp, p) for p in ps) or len(rel_comps_of(cp)) != k:
                     bad += 1
                     rep.fail('commonprefix(%r) = %r is not the longest common ancestor' % ([p.suffix for p in ps], cp.suffix),
-                             info, classes=classes_of(paths=ps, extra=extra))
+                             info, classes=())         # no recorded finding is about a wrong value of commonprefix
             ut = bpath.uniquetrees(ps)
             uextra = []
             vals = {}
@@ -844,9 +929,30 @@ def stage_oracle_sets(rep, rng, n):
                   all(not is_ancestor(u, v) for u in ut for v in ut if u is not v))
             if not ok:
                 bad += 1
+                # what exactly is wrong, and which of the two findings explains each part: an input path that no result
+                # covers is explained by a path under a root of ANOTHER type with the same numeric value that would cover it
+                # (root-value collision); a result below another result is explained when that other result is the
+                # file-system root '/'. Anything left unexplained makes the whole failure a violation.
+                ucls, explained = set(), all(any(u is p for p in ps) for u in ut)
+                for p in ps:
+                    if not any(is_ancestor(u, p) for u in ut):
+                        pc = rel_comps_of(p)
+                        if 'uniquetrees-root-value-collision' in uextra and any(
+                                q.root.value == p.root.value and type(q.root) is not type(p.root) and
+                                rel_comps_of(q) == pc[:len(rel_comps_of(q))] for q in ps):
+                            ucls.add('uniquetrees-root-value-collision')
+                        else:
+                            explained = False
+                for u in ut:
+                    for v in ut:
+                        if u is not v and is_ancestor(u, v):
+                            if 'uniquetrees-filesystem-root' in uextra and u.root.name == 'absolute' and u.suffix == '/':
+                                ucls.add('uniquetrees-filesystem-root')
+                            else:
+                                explained = False
                 rep.fail('uniquetrees(%r) = %r is not a minimal covering subset' % (
                     [(p.root.name, p.suffix) for p in ps], [(p.root.name, p.suffix) for p in ut]),
-                    info, classes=classes_of(extra=uextra))
+                    info, classes=tuple(sorted(ucls)) if explained else ())
     rep.stage('oracle:sets', failures=bad)
     return bad
 
